@@ -109,6 +109,32 @@ class Normalizer:
             return tuple(sub(x) if isinstance(x, (tuple, frozenset)) else x for x in t)
         return flow.simplify_term(sub(v))
 
+    def inline(self, t, depth=0):
+        """look through workspace helpers: a call whose callee's table has a single unconditional row is replaced by
+        that row's value (arguments substituted), recursively; then normalised"""
+        if self.S is None or depth > 5:
+            return self.norm(t)
+        t = self.norm(t)
+        skip = set()
+        for _ in range(60):
+            todo = None
+            for c in summary.find_calls(t, self.p):
+                if c[0] != "call" or c in skip:
+                    continue
+                cb = self.S.callee_body(c)
+                outs = self.S.outcomes(cb) if cb is not None else []
+                if len(outs) != 1 or outs[0].conds:
+                    skip.add(c)
+                    continue
+                todo = (c, outs[0])
+                break
+            if todo is None:
+                break
+            c, o = todo
+            v = flow.simplify_term(summary.subst(o.value, c[2], None))
+            t = self.norm(summary.replace(t, c, self.inline(v, depth + 1)))
+        return t
+
     # ---- the rewriting
     def norm(self, t, depth=0):
         if not isinstance(t, (tuple, frozenset)) or not t:
@@ -116,6 +142,8 @@ class Normalizer:
         key = t
         if key in self.memo:
             return self.memo[key]
+        if depth == 0 and isinstance(t, tuple):
+            t = flow.simplify_term(t)
         r = self._norm(t, depth)
         self.memo[key] = r
         return r
